@@ -12,13 +12,11 @@ mode "conc": two updaters (own container objects over clones of the transport), 
              invoke/return history plus the final state must be linearizable w.r.t. MRefs
              (brute force; values are unique)."""
 
-import os
-
 from simkit import world
 from simkit.sim import SimCrash
 
 from . import gitsim
-from .gitsim import MRefs, OPNAME, ZERO, sha
+from .gitsim import OPNAME, ZERO, sha
 
 PROPERTY = "C37"
 LEVEL = "exploration"
@@ -43,7 +41,8 @@ ASSUMPTIONS = [
     "put_bytes/delete/rename of the store are atomic; open_write_stream + write + close are three separate steps (as on the real transports)",
     "an updater that fails to obtain the ref lock (LockContention) gives up; that outcome must have no effect",
     "an updater call that raises anything else counts as 'may or may not have taken effect'",
-    "reads are not part of the checked history (the property is about conditional updates); the final state is",
+    "reads by the updaters are not part of the checked history (the property is about conditional updates); the state read back after both updaters finished is",
+    "store kind 'memory' stands for every transport without local paths: there lock_ref is has()+put_bytes() (the code calls it racy); store kind 'local' is a directory, where lock_ref creates O_EXCL lock files; the kind is the 4th element of the concurrent signature",
     "remove_if_equals does not follow symbolic refs (its documented contract): on a symbolic ref it is only called with old=None or a stale sha",
     "old=ZERO_SHA on an absent ref may either match (dulwich convention) or fail",
 ]
